@@ -260,6 +260,7 @@ func TestC11(t *testing.T) {
 	r := newRun(t, "C11", "exploration")
 	defer r.Finish(t)
 	r.Rule = "unite only; scenarios as in C03 with slice lengths from {0,1,<J,=J,>J,>>J} and re-sent slice objects, timeouts firing between arrivals (fake clock block + real clock block); oracle offline and positional (after concatenation equality): every non-empty input slice lies wholly inside exactly one output slice, an input slice of >= JoinSize elements is an output slice of its own. non-trivial = scenario with >= 2 output slices, an input slice >= JoinSize and a timeout or fit flush; distinct by scenario fingerprint"
+	r.Rule += " | also: consumers that write over the whole capacity of the slices they own; window slices of one shared array with the search-based oracle; timeouts of years"
 	r.Assumptions = []string{"testing/synctest fake clock of go1.26.8"}
 	r.Floor = 20
 	if replayJoin(t, r) {
